@@ -5,6 +5,7 @@
  */
 
 use alloc::borrow::ToOwned;
+use alloc::vec::Vec;
 use crate::config::SmartCalcConfig;
 use crate::types::*;
 use crate::tokinizer::Tokinizer;
@@ -12,8 +13,25 @@ use regex::Regex;
 use crate::token::ui_token::{UiTokenType};
 
 pub fn percent_regex_parser(config: &SmartCalcConfig, tokinizer: &mut Tokinizer, group_item: &[Regex]) {
+    /* The digits of a hexadecimal, octal or binary literal followed by a percent sign (0b1001%) belong to that literal, they are not a percentage */
+    let mut based_numbers = Vec::new();
+    if let Some(number_items) = config.token_parse_regex.get("number") {
+        for re in number_items.iter() {
+            for capture in re.captures_iter(&tokinizer.data) {
+                if let Some(based_number) = capture.name("HEX_FULL").or_else(|| capture.name("OCTAL_FULL")).or_else(|| capture.name("BINARY_FULL")) {
+                    based_numbers.push((based_number.start(), based_number.end()));
+                }
+            }
+        }
+    }
+
     for re in group_item.iter() {
         for capture in re.captures_iter(&tokinizer.data.to_owned()) {
+            let number_start = capture.name("NUMBER").unwrap().start();
+            if based_numbers.iter().any(|(based_start, based_end)| number_start > *based_start && number_start < *based_end) {
+                continue;
+            }
+
             let number = match capture.name("NUMBER").unwrap().as_str().replace(&config.thousand_separator[..], "").replace(&config.decimal_seperator[..], ".").parse::<f64>() {
                 Ok(number) => number,
                 Err(_) => continue
